@@ -596,6 +596,12 @@ VARIANTS += [
 ]
 # ---- fourth round: rules derived from the mutation sweep and the fourth batch of seeded changes
 VARIANTS += [
+    M("thl-speciation-only-at-covering-species", REC, "                if not root_species.is_leaf():\n                    _compute_thl_try_speciation(",
+      "                if not root_species.is_leaf() and root_species == rec_input.species_lca(*(rec_input.leaf_object_species[leaf] for leaf in root_node.iter_leaves())):\n                    _compute_thl_try_speciation(", "CANDIDATE-GUARDS"),
+    M("spfs-skip-empty-looking-syntenies", SPFS, "                if conserv_segments < 0:\n                    # Not a subsequence of the parent synteny\n                    continue\n",
+      "                if conserv_segments < 0:\n                    # Not a subsequence of the parent synteny\n                    continue\n\n                if child_synteny & (child_synteny - 1) == 0:\n                    continue\n", "CANDIDATE-GUARDS"),
+    T("twin-thl-internal-species-local", REC, "                if not root_species.is_leaf():\n                    _compute_thl_try_speciation(",
+      "                is_internal = not root_species.is_leaf()\n\n                if is_internal:\n                    _compute_thl_try_speciation("),
     M("tikz-loss-keep-other-layout", TIKZ, "                keep_pos = left_layout.anchors[left_gene]", "                keep_pos = right_layout.anchors[left_gene]", "DRAW-ANCHOR-SIDES"),
     M("tikz-loss-keep-none-gene", TIKZ, "                keep_pos = right_layout.anchors[right_gene]", "                keep_pos = right_layout.anchors[left_gene]", "DRAW-ANCHOR-SIDES"),
     M("tikz-loss-test-other-side", TIKZ, "            if right_gene is None:", "            if left_gene is None:", "DRAW-ANCHOR-SIDES"),
@@ -629,7 +635,7 @@ VARIANTS += [
     M("cli-no-newline", CLI, "        json.dump(result.to_dict(), args.output)\n        print(file=args.output)", "        json.dump(result.to_dict(), args.output)", "CLI-FLOW-TABLE"),
     M("cli-cost-on-stdout", CLI, "print(\"Minimum cost:\", results[0].cost(), file=sys.stderr)", "print(\"Minimum cost:\", results[0].cost(), file=args.output)", "CLI-FLOW-TABLE"),
     M("cli-none-test-inverted", CLI, "    if output is None:", "    if output is not None:", "CLI-FLOW-TABLE"),
-    M("cli-policy-ignored", CLI, "            getattr(RetentionPolicy, args.solutions.upper()),", "            RetentionPolicy.ANY,", "CLI-FLOW-TABLE", "POLICY-FLOW"),
+    M("cli-policy-ignored", CLI, "            getattr(RetentionPolicy, args.solutions.upper()),", "            RetentionPolicy.ANY,", "CLI-FLOW-TABLE"),
     M("cli-super-algo-called-anyway", CLI, "            return None\n\n    if len(params) == 1:", "\n    if len(params) == 1:", "CLI-FLOW-TABLE", "ERROR-PATH"),
     T("twin-cli-status-local", CLI, "    if results is None:\n        return 1", "    if results is None:\n        status = 1\n        return status"),
     T("twin-cli-none-eq", CLI, "    if output is None:", "    if output == None:"),
